@@ -1,7 +1,6 @@
 CONSTANTS
-  PMAX = 255
-  SMM_TOTAL_ORDER = TRUE
-  REV_REBASE = TRUE
+  F32 = FALSE
+  CHECK_NONNEG = TRUE
 SPECIFICATION Spec
 INVARIANT NotDone
 POSTCONDITION TraceAccepted
